@@ -250,4 +250,45 @@ mod verif_c09 {
         kani::cover!(status == 0 && rate > 0.0);
         std::mem::forget(ps);
     }
+
+    // @harness id=C09 tier=quick timeout=1800 mem=6 checks=rust
+    // @bounds BarState::reset in every mode (reset_eta / reset_elapsed / reset) on a hidden bar whose estimator holds ARBITRARY values: the estimator forgets everything in all three modes; elapsed restarts for Elapsed/All; position returns to 0 and the bar is in progress again for All
+    #[kani::proof]
+    #[kani::unwind(6)]
+    #[kani::stub(crate::state::estimator_weight, stub_weight)]
+    //@STUBS std noterm nomulti norender rlany
+    fn c09_bar_reset_modes() {
+        use crate::style::verif_rig_style::*;
+        let pos: u64 = kani::any();
+        let status: u8 = kani::any();
+        kani::assume(status < 3);
+        let mut ps = rig_pstate(pos, Some(7), 0, status);
+        let a: f64 = kani::any();
+        let b: f64 = kani::any();
+        ps.est.smoothed_steps_per_sec = a;
+        ps.est.double_smoothed_steps_per_sec = b;
+        ps.est.prev_steps = kani::any();
+        let started0 = ps.started;
+        let mut bs = rig_bar(ps, rig_style_empty(), ProgressDrawTarget::hidden(), ProgressFinish::AndLeave);
+        let now = mk_instant(1_000_000, 0) + any_gap();
+        let mode: u8 = kani::any();
+        kani::assume(mode < 3);
+        match mode {
+            0 => bs.reset(now, Reset::Eta),
+            1 => bs.reset(now, Reset::Elapsed),
+            _ => bs.reset(now, Reset::All),
+        }
+        let st = &bs.state;
+        assert!(st.est.smoothed_steps_per_sec == 0.0 && st.est.double_smoothed_steps_per_sec == 0.0);
+        assert!(st.est.prev_time == now && st.est.start_time == now);
+        assert!(st.started == if mode == 0 { started0 } else { now });
+        if mode == 2 {
+            assert!(st.pos() == 0 && !st.is_finished());
+        } else {
+            assert!(st.pos() == pos && st.is_finished() == (status != 0));
+        }
+        kani::cover!(mode == 2 && status == 2);
+        kani::cover!(mode == 0 && a.is_nan());
+        std::mem::forget(bs);
+    }
 }
